@@ -4,6 +4,7 @@ package xtime
 import (
 	"context"
 	"fmt"
+	"math"
 	"math/rand"
 	"sync"
 	"time"
@@ -93,7 +94,17 @@ func (t *JitterTicker) schedule() {
 	}
 	next := t.d
 	if t.jitter > 0 {
-		next += time.Duration(rand.Int63n(int64(t.jitter*2))) - (t.jitter)
+		// The offset is uniform in [-jitter, jitter). It is drawn as a magnitude and a sign, and added with
+		// saturation, so that neither jitter*2 nor d+offset can overflow for large (but valid) arguments.
+		offset := time.Duration(rand.Int63n(int64(t.jitter)))
+		if rand.Int63()&1 == 1 {
+			offset = -offset - 1
+		}
+		if offset > 0 && next > math.MaxInt64-offset {
+			next = math.MaxInt64
+		} else {
+			next += offset
+		}
 	}
 
 	// To prevent a latent goroutine already spawned but not yet running the below function from
